@@ -42,8 +42,8 @@ TRUSTED = ['py/checks/C19.py spec(): nested-list integer arithmetic (numpy-free)
            'the documented widths max+1 / sum / k*k*(sum) and are exact when max_bits is not reached',
            'Lib/Matrix.v wv_add/wv_sub/wv_mul/fma: value and width of the WireVector operators used by matrix.py '
            '(documented op table; fma = (a*b+c) mod 2^(max(wa+wb-1,wc)+1), tied by simulation)',
-           'Lib/MatrixProofs.v wfx/mrange/sumZ/dot_spec/inner_spec/mat_pow_spec/is_max/is_min/first_index: the '
-           'vocabulary the theorem statements are written in']
+           'Lib/MatrixProofs.v wfx/mrange/sumZ/dot_spec/inner_spec/mat_pow_spec/is_max/is_min/first_index/'
+           'put_last/orient/stackable_h/stackable_v: the vocabulary the theorem statements are written in']
 ASSUMPTIONS = ['signed=False (signed matrices are documented as unsupported)',
                'max_bits is an int >= 1 (max_bits=None is not modelled)',
                'Python-level argument validation (type errors) is only checked as "raises"',
@@ -482,13 +482,13 @@ def coq_term(case, A, S):
     if op == 'multiply':
         return some('(mmul %s %s)' % (a, A[1]))
     if op in ('iadd', 'isub', 'imul', 'imatmul'):
-        return some('(mcopy (m%s %s %s))' % (op[1:], a, A[1]))
+        return some('(m%s %s %s)' % (op, a, A[1]))
     if op == 'scal':
         return some('(mscal %s %d %s)' % (a, g['ws'], S))
     if op == 'pow':
         return some('(mpow %s %d)' % (a, g['n']))
     if op == 'ipow':
-        return some('(mcopy (mpow %s %d))' % (a, g['n']))
+        return some('(mipow %s %d)' % (a, g['n']))
     if op == 'transpose':
         return some('(mtranspose %s)' % a)
     if op == 'reversed':
